@@ -58,6 +58,7 @@ def run_cases(ctx, exe, orac, cases, prop, label):
             continue
         for p, key, msg in pipelib.oracle(prog, lines, meta):
             if p == "INFO":
+                ctx.count("info:" + key)
                 continue
             k = attribute(prop, p, key, prog)
             ctx.count("oracle:%s:%s" % (p, key))
@@ -68,7 +69,13 @@ def run_cases(ctx, exe, orac, cases, prop, label):
         if not ok:
             ctx.count("model-scope-skip:" + why[:50])
             continue
+        if any(l.startswith(("STEPLIMIT", "DEADLOCK")) for l in lines[-40:]):
+            ctx.count("model-skip:run did not finish (judged by the oracle)")
+            continue
         ev, src = pipelib.to_events(prog, lines)
+        if len(ev) > 30000:
+            ctx.count("model-skip:trace longer than 30000 events")
+            continue
         if ev.scope is not None:
             ctx.count("model-scope-skip:" + ev.scope[:50])
             continue
